@@ -212,3 +212,26 @@ func TestGrid(t *testing.T) {
 }
 
 func TestReplay(t *testing.T) { R.Replay(t) }
+
+// FuzzBits: the same property under Go's coverage-guided fuzzer.
+func FuzzBits(f *testing.F) {
+	f.Add([]byte{0xFF, 0, 0xAA, 0x55, 1, 2, 3, 4, 5, 6, 7, 8, 9}, uint16(3), uint8(63))
+	f.Fuzz(func(t *testing.T, buf []byte, pos uint16, width uint8) {
+		w := int(width%64) + 1
+		if len(buf) == 0 || len(buf) > 64 {
+			return
+		}
+		p := int(pos) % (len(buf) * 8)
+		if p+w > len(buf)*8 {
+			return
+		}
+		flip := make([]byte, len(buf))
+		for i := range flip {
+			flip[i] = buf[(i+1)%len(buf)] ^ 0x5A
+		}
+		o := &stats.Obs{}
+		if err := check(Case{Buf: buf, Pos: p, Width: w, Flip: flip}, o); err != nil {
+			t.Fatalf("C14 violated: %v", err)
+		}
+	})
+}
